@@ -6,7 +6,7 @@ namespace GlmVerif.C18.Props
 open GlmVerif.C18
 
 macro "c18_unfold" : tactic => `(tactic| simp only [
-  sx, zx, tr, b2v, absS, signS, smearU, smearS, bitCount, findMSBU, findMSBS,
+  sx, zx, tr, b2v, absS, signS, smearU, smearS, bitCount, findMSBU, findMSBS, findMSBpubS,
   isPowerOfTwoU, isPowerOfTwoS, isPowerOfTwoVU, isPowerOfTwoVS, ceilPowerOfTwoU, ceilPowerOfTwoS, floorPowerOfTwoU, floorPowerOfTwoS,
   roundPowerOfTwoU, roundPowerOfTwoS, hbvLoop, highestBitValue, lowestBitValue,
   powerOfTwoAboveU, powerOfTwoAboveS, powerOfTwoBelowU, powerOfTwoBelowS, powerOfTwoNearestU, powerOfTwoNearestS,
